@@ -20,9 +20,9 @@ COERCE = "self.by_group.apply(lambda x: x.apply(lambda y: y if np.isscalar(y) el
 
 
 def check(ctx):
-    r021(ctx)
-    r022_023(ctx)
-    r024(ctx)
+    ctx.guard(r021, ctx)
+    ctx.guard(r022_023, ctx)
+    ctx.guard(r024, ctx)
 
 
 def r021(ctx):
